@@ -11,9 +11,42 @@ import (
 	"github.com/tetratelabs/wazero/internal/wasm"
 )
 
+// ensureRemaining returns the error io.ReadFull would return when fewer than n bytes remain in r.
+// It is called before a declared size is used for an allocation, so that a few bytes of input
+// cannot make the decoder allocate gigabytes.
+func ensureRemaining(r *bytes.Reader, n uint64) error {
+	if uint64(r.Len()) >= n {
+		return nil
+	} else if r.Len() == 0 {
+		return io.EOF
+	}
+	return io.ErrUnexpectedEOF
+}
+
+// ensureVectorFits rejects a vector whose declared element count exceeds the remaining input: every
+// element occupies at least one byte, so such a vector can never be decoded completely.
+func ensureVectorFits(r *bytes.Reader, count uint32) error {
+	if uint64(count) > uint64(r.Len()) {
+		return fmt.Errorf("vector size %d exceeds the remaining %d bytes", count, r.Len())
+	}
+	return nil
+}
+
+// vectorCapacity is the capacity to pre-allocate for a vector of the declared element count: never
+// more than the remaining input, because every element occupies at least one byte.
+func vectorCapacity(r *bytes.Reader, count uint32) uint32 {
+	if uint64(count) > uint64(r.Len()) {
+		return uint32(r.Len())
+	}
+	return count
+}
+
 func decodeValueTypes(r *bytes.Reader, num uint32) ([]wasm.ValueType, error) {
 	if num == 0 {
 		return nil, nil
+	}
+	if err := ensureRemaining(r, uint64(num)); err != nil {
+		return nil, err
 	}
 
 	ret := make([]wasm.ValueType, num)
@@ -43,6 +76,10 @@ func decodeUTF8(r *bytes.Reader, contextFormat string, contextArgs ...interface{
 
 	if size == 0 {
 		return "", uint32(sizeOfSize), nil
+	}
+
+	if err = ensureRemaining(r, uint64(size)); err != nil {
+		return "", 0, fmt.Errorf("failed to read %s: %w", fmt.Sprintf(contextFormat, contextArgs...), err)
 	}
 
 	buf := make([]byte, size)
